@@ -354,6 +354,9 @@ pub fn run(o: &mut Out, tier: &str, seed: u64) {
         let js = serde_json::to_string(&a).unwrap();
         o.direct(js == format!("\"{}\"", t), "json of an address is its display string", t.clone(), js.clone(), format!("\"{}\"", t));
         o.direct(serde_json::from_str::<Address>(&js).ok() == Some(a), "from_json(to_json(address))==address", t.clone(), "-".into(), "-".into());
+        // the same document through the other entry points of serde_json (owned strings): value tree and reader
+        o.direct(serde_json::from_value::<Address>(serde_json::Value::String(t.clone())).ok() == Some(a), "from_value(to_value(address))==address", format!("c19_addr {}", h(&t)), "err or other".into(), t.clone());
+        o.direct(serde_json::from_reader::<_, Address>(js.as_bytes()).ok() == Some(a), "from_reader(to_json(address))==address", format!("c19_addr {}", h(&t)), "err or other".into(), t.clone());
         let r = o.op(format!("c19_addr {}", h(&t)), false); if nt(&r) { o.nontrivial.insert(o.ops.last().unwrap().clone()); }
         o.stat(&format!("addr.{:?}.{}", n, k));
         texts.push(t);
